@@ -17,10 +17,10 @@ COMMON_ASSUMPTIONS = [
 Q = lambda *l: list(l)
 PROPS = {
     "C01": dict(level="proof", quick=Q(("moves", 60, 150), ("mixed", 40, 150), ("pointers", 10, 150), ("events", 30, 150)), thorough=Q(("moves", 1500, 500), ("mixed", 800, 500), ("batch", 400, 500), ("pointers", 200, 300), ("relations", 400, 400))),
-    "C02": dict(level="proof", quick=Q(("churn", 60, 200), ("mixed", 30, 150), ("cache", 30, 150)), thorough=Q(("churn", 1500, 600), ("mixed", 600, 500), ("reset", 400, 400))),
+    "C02": dict(level="proof", quick=Q(("churn", 60, 200), ("mixed", 30, 150), ("cache", 30, 150), ("relations", 30, 150)), thorough=Q(("churn", 1500, 600), ("mixed", 600, 500), ("reset", 400, 400))),
     "C03": dict(level="proof", quick=Q(("queries", 60, 200), ("cache", 30, 150), ("batch", 40, 200)), thorough=Q(("queries", 1500, 500), ("cache", 600, 400), ("batch", 400, 400), ("relations", 400, 400))),
     "C04": dict(level="proof", quick=Q(), thorough=Q()),
-    "C05": dict(level="proof", quick=Q(("relations", 70, 200), ("mixed", 30, 150)), thorough=Q(("relations", 1500, 500), ("mixed", 600, 500), ("batch", 400, 400))),
+    "C05": dict(level="proof", quick=Q(("relations", 70, 200), ("mixed", 30, 150), ("reset", 30, 150)), thorough=Q(("relations", 1500, 500), ("mixed", 600, 500), ("batch", 400, 400))),
     "C06": dict(level="proof", quick=Q(("relations", 60, 200), ("cache", 30, 150), ("reset", 40, 200)), thorough=Q(("relations", 1500, 500), ("cache", 600, 400), ("reset", 400, 400))),
     "C07": dict(level="proof", quick=Q(("cache", 70, 200), ("relations", 30, 150)), thorough=Q(("cache", 1500, 500), ("relations", 600, 400), ("reset", 400, 400), ("batch", 400, 400))),
     "C08": dict(level="proof", quick=Q(("batch", 70, 200), ("mixed", 30, 150)), thorough=Q(("batch", 1500, 500), ("mixed", 600, 400), ("cache", 400, 400))),
@@ -377,7 +377,7 @@ def pure_arm(pid, tier, seed, work):
             cnt += 1
             g = go[i].split("\t") if i < len(go) else ["<missing>", ""]
             le = lean[i] if i < len(lean) else "<missing>"
-            if len(g) > 1 and g[1] != "" and g[0] != g[1]:
+            if len(g) > 1 and g[1] != "-" and g[0] != g[1]:  # "-" = no independent oracle; "" = the empty set
                 rp = os.path.join(VERIF, "replays", "%s-pure-%s.txt" % (pid, tags.replace(",", "-")))
                 open(rp, "w").write("# property %s, build tags %s: the Go function disagrees with the set-semantics definition\n# input line (protocol of harness purerun / lean gencheck):\n%s\n# Go result: %s\n# by definition: %s\n# regenerated Lean definition: %s\n" % (pid, tags, l, g[0], g[1], le))
                 viol.append((rp, ""))
